@@ -871,7 +871,7 @@ func genConsScript(r *common.Rng, tier string) cscript {
 		// every removal must leave its folder empty (snapshots are forced so that Clean goes through the backup rotation)
 		s.init = []int{0}
 		s.rotate = 1 + r.Intn(2)
-		s.slash = r.Chance(1, 12)
+		s.slash = r.Chance(1, 3)
 		rounds := s.rotate + 2
 		for k := 0; k < rounds; k++ {
 			s.ops = append(s.ops, "start@1", "add@0@1", "ready@1",
